@@ -174,6 +174,7 @@ def explore(driver, acc, depth, roots=None, max_states=None, oracle_on="all"):
             if fp not in seen:
                 seen.add(fp)
                 acc.add("states", fp)
+                acc.nt(("state", fp))
                 recorded[nh] = outs
                 if max_states is not None and len(seen) >= max_states:
                     capped = True
